@@ -31,6 +31,12 @@ CLAIMS = {
             "temporary and renames it; the reader delivers an edit only at its separator and drops a trailing partial edit; "
             "lines are CRC-gated; the directory lock is taken before reading and owned by the handle; only _apply/rollover "
             "write manifest files.  Does not decide tolerance of every truncation/crash point or the string alphabet.", "§4 C13"),
+    "C08": ("who-may-call enumeration of every remove/rename/hard_link site with ORIGIN path classification; GUARDED/ORDER on unref, verifier and orphan scan; ESCAPE of the VersionRef",
+            "Decides the deletion capability: nothing under sst/, mani/ or a log is ever unlinked by the store, an sst/ file is "
+            "moved to trash/ only under dec()==true and strong_count==1, versions are referenced before publication, the "
+            "verifier unlinks only what a durable intent names and only after verify_one, the orphan scan skips roll-ups and "
+            "only renames, and scan cursors own the VersionRef pinning their files.  Does not decide that reference counts are "
+            "numerically right for every history.", "§4 C08"),
 }
 
 NA_DEFAULT = "check not built yet (DESIGN.md §8 build order); will be claimed once its rule set is armed"
